@@ -134,3 +134,67 @@ def dumps_policy(d, fmt='yaml'):
         return json.dumps(d, indent=1)
     import yaml
     return yaml.safe_dump(d, default_flow_style=False) if d else '{}\n'
+
+
+class HttpStub:
+    """Cuts `requests` at the transport adapter: no socket is ever opened.
+    `responder(prepared_request, kwargs)` returns (status, body bytes,
+    headers) or raises the fault to inject.  Every call is recorded."""
+
+    def __init__(self, responder):
+        self.responder = responder
+        self.calls = []
+        self._orig = None
+
+    def __enter__(self):
+        import requests
+        from requests import adapters
+        self._orig = adapters.HTTPAdapter.send
+        stub = self
+
+        def send(adapter, request, stream=False, timeout=None, verify=True,
+                 cert=None, proxies=None):
+            kw = {'timeout': timeout, 'verify': verify, 'cert': cert}
+            stub.calls.append((request, kw))
+            status, body, headers = stub.responder(request, kw)
+            resp = requests.Response()
+            resp.status_code = status
+            resp._content = body
+            resp._content_consumed = True
+            resp.headers.update(headers or {})
+            resp.url = request.url
+            resp.request = request
+            resp.encoding = requests.utils.get_encoding_from_headers(
+                resp.headers)
+            return resp
+        adapters.HTTPAdapter.send = send
+        return self
+
+    def __exit__(self, *a):
+        from requests import adapters
+        adapters.HTTPAdapter.send = self._orig
+
+
+import contextlib
+
+
+@contextlib.contextmanager
+def entry_points(policies=None, enforcers=None):
+    """Hand the console tools their defaults / enforcer through stevedore
+    test instances, exactly as the project's own tests do."""
+    import stevedore
+    import stevedore.named
+    orig = stevedore.named.NamedExtensionManager
+
+    def factory(namespace, names=None, **kw):
+        src = policies if namespace == 'oslo.policy.policies' else enforcers
+        src = src or {}
+        exts = [stevedore.extension.Extension(name=n, entry_point=None,
+                                              plugin=None, obj=src[n])
+                for n in (names or []) if n in src]
+        return orig.make_test_instance(extensions=exts, namespace=namespace)
+    stevedore.named.NamedExtensionManager = factory
+    try:
+        yield
+    finally:
+        stevedore.named.NamedExtensionManager = orig
